@@ -207,6 +207,14 @@ func verifMutationBase(k int) *ScopeSchema {
 			"dis": dis,
 		}), NewObjectSchema("X", map[string]*PropertySchema{"v": p(NewIntSchema(nil, nil, nil), false, nil)}))
 	}
+	if k == 4 { // inline objects (not registered in any scope) carrying defaults: as a property type and as a list item
+		sub := NewObjectSchema("Sub", map[string]*PropertySchema{"n": p(NewIntSchema(nil, nil, nil), false, verifStrPtr("3"))})
+		item := NewObjectSchema("It", map[string]*PropertySchema{"w": p(NewStringSchema(nil, nil, nil), false, verifStrPtr(`"d"`))})
+		return NewScopeSchema(NewObjectSchema("A", map[string]*PropertySchema{
+			"sub":   p(sub, false, nil),
+			"items": p(NewListSchema(item, nil, nil), false, nil),
+		}))
+	}
 	// inlined int one-of and a nested scope
 	inner := NewScopeSchema(NewObjectSchema("B", map[string]*PropertySchema{"z": p(NewFloatSchema(nil, nil, nil), false, nil)}))
 	return NewScopeSchema(NewObjectSchema("A", map[string]*PropertySchema{
@@ -241,6 +249,11 @@ func verifExerciseScope(s *ScopeSchema, base int) {
 			map[any]any{"o": map[string]any{"d": int64(1)}, "in": map[string]any{"z": 1.5}, "y": []any{int64(1)}},
 			map[string]any{"o": map[string]any{"d": int64(2)}, "in": "x"},
 		)
+	case 4:
+		inputs = append(inputs,
+			map[string]any{"sub": map[string]any{}, "items": []any{map[string]any{}}},
+			map[string]any{"sub": map[string]any{"n": int64(1)}, "items": []any{map[string]any{"w": "x"}, "y"}},
+		)
 	case 3:
 		inputs = append(inputs,
 			map[string]any{"ls": []any{map[string]any{"z": 1.5}, "x"}, "ms": map[string]any{"k": map[string]any{"q": true}, "j": int64(1)}},
@@ -265,7 +278,7 @@ func verifExerciseScope(s *ScopeSchema, base int) {
 }
 
 func VerifC10_MutatedScope() {
-	baseK := nondetChoice("base", 4)
+	baseK := nondetChoice("base", 5)
 	base := verifMutationBase(baseK)
 	d, err := base.SelfSerialize()
 	verifAssert("C10/scope/base-describes-itself", err == nil)
